@@ -216,76 +216,99 @@ impl<T: RefEuclid> RMat<T> {
     }
 
     /// Invariant factors by the textbook pivot-and-clear algorithm (works for any size).
+    /// Pivot = a unit if the remaining block has one, else an entry of minimal Euclidean value;
+    /// clear the pivot column by row operations, then the pivot row by column operations (which,
+    /// the column being clear, only touch the pivot row); whenever a non-zero remainder appears it
+    /// becomes the new, strictly smaller pivot; finally enforce the divisibility chain.
     pub fn invariant_factors_by_elimination(&self) -> Vec<T> {
         let mut a = self.clone();
         let (m, n) = (self.m, self.n);
-        let mut diag = vec![];
+        let mut diag: Vec<T> = vec![];
         let mut t = 0;
-        while t < m.min(n) {
-            // pivot: non-zero entry of minimal euclidean value in the remaining block
-            let mut best: Option<(usize, usize, Z)> = None;
-            for i in t..m {
+        'pivot: while t < m.min(n) {
+            // choose a pivot in the block [t.., t..]
+            let mut best: Option<(usize, usize)> = None;
+            'scan: for i in t..m {
                 for j in t..n {
-                    if let Some(v) = a.at(i, j).eucl() {
-                        if best.as_ref().map(|b| v < b.2).unwrap_or(true) {
-                            best = Some((i, j, v));
+                    let x = a.at(i, j);
+                    if x.is_zero() {
+                        continue;
+                    }
+                    if x.is_one() || x.neg().is_one() {
+                        best = Some((i, j));
+                        break 'scan;
+                    }
+                    match best {
+                        None => best = Some((i, j)),
+                        Some((bi, bj)) => {
+                            if x.eucl() < a.at(bi, bj).eucl() {
+                                best = Some((i, j))
+                            }
                         }
                     }
                 }
             }
-            let Some((pi, pj, _)) = best else { break };
+            let Some((pi, pj)) = best else { break };
             a.swap_rows(t, pi);
             a.swap_cols(t, pj);
-            // clear row and column t; restart with a smaller pivot whenever a remainder appears
-            let mut dirty = false;
-            for i in t + 1..m {
-                if a.at(i, t).is_zero() {
-                    continue;
-                }
-                let (q, r) = a.at(i, t).div_rem(a.at(t, t));
-                for j in t..n {
-                    let v = a.at(i, j).sub(&q.mul(a.at(t, j)));
-                    a.set(i, j, v);
-                }
-                debug_assert!(*a.at(i, t) == r);
-                if !r.is_zero() {
-                    dirty = true;
-                }
-            }
-            for j in t + 1..n {
-                if a.at(t, j).is_zero() {
-                    continue;
-                }
-                let (q, r) = a.at(t, j).div_rem(a.at(t, t));
-                for i in t..m {
-                    let v = a.at(i, j).sub(&q.mul(a.at(i, t)));
-                    a.set(i, j, v);
-                }
-                debug_assert!(*a.at(t, j) == r);
-                if !r.is_zero() {
-                    dirty = true;
-                }
-            }
-            if dirty {
-                continue;
-            }
-            // divisibility: the pivot must divide every remaining entry
-            let mut bad = None;
-            'o: for i in t + 1..m {
-                for j in t + 1..n {
-                    if !a.at(t, t).divides(a.at(i, j)) {
-                        bad = Some(i);
-                        break 'o;
+            loop {
+                // clear column t below the pivot
+                let piv = a.at(t, t).clone();
+                let cols: Vec<usize> = (t..n).filter(|&j| !a.at(t, j).is_zero()).collect();
+                let mut smaller: Option<usize> = None;
+                for i in t + 1..m {
+                    if a.at(i, t).is_zero() {
+                        continue;
+                    }
+                    let (q, r) = a.at(i, t).div_rem(&piv);
+                    if !q.is_zero() {
+                        for &j in &cols {
+                            let v = a.at(i, j).sub(&q.mul(a.at(t, j)));
+                            a.set(i, j, v);
+                        }
+                    }
+                    debug_assert!(*a.at(i, t) == r);
+                    if !r.is_zero() {
+                        smaller = Some(i);
                     }
                 }
-            }
-            if let Some(i) = bad {
-                // add row i to row t and retry
-                for j in t..n {
-                    let v = a.at(t, j).add(a.at(i, j));
-                    a.set(t, j, v);
+                if let Some(i) = smaller {
+                    a.swap_rows(t, i);
+                    continue;
                 }
-                continue;
+                // clear row t right of the pivot (column t is zero below the pivot)
+                let mut smaller_col: Option<usize> = None;
+                for j in t + 1..n {
+                    if a.at(t, j).is_zero() {
+                        continue;
+                    }
+                    let (_, r) = a.at(t, j).div_rem(&piv);
+                    if !r.is_zero() {
+                        smaller_col = Some(j);
+                    }
+                    a.set(t, j, r);
+                }
+                if let Some(j) = smaller_col {
+                    a.swap_cols(t, j);
+                    continue;
+                }
+                break;
+            }
+            // divisibility: the pivot must divide every remaining entry (skip when it is a unit)
+            if !a.at(t, t).is_unit() {
+                for i in t + 1..m {
+                    for j in t + 1..n {
+                        if !a.at(t, t).divides(a.at(i, j)) {
+                            // add row i to row t and redo this pivot
+                            for jj in t..n {
+                                let v = a.at(t, jj).add(a.at(i, jj));
+                                a.set(t, jj, v);
+                            }
+                            // (t,t) itself is unchanged because column t is clear; redo this pivot
+                            continue 'pivot;
+                        }
+                    }
+                }
             }
             diag.push(a.at(t, t).clone());
             t += 1;
